@@ -126,6 +126,34 @@ def decide(term) -> bool:
     return d
 
 
+def concretize(term, limit=None):
+    """a symbolic integer is needed as a Python int (list repetition, range(), an index):
+    case split over its feasible values under the current path condition.  Complete when
+    the path condition bounds the term to at most CONCRETIZE_LIMIT values; otherwise
+    Unsupported (=> undecided), never a silent restriction."""
+    c = ctx()
+    limit = limit or CONCRETIZE_LIMIT
+    for _ in range(limit + 1):
+        s = z3.Solver()
+        s.set("timeout", FEAS_TIMEOUT_MS)
+        s.add(*c.pc)
+        s.add(*c.axioms)
+        r = s.check()
+        if r == z3.unsat:
+            raise Infeasible()
+        if r != z3.sat:
+            raise Unsupported("cannot enumerate the values of a symbolic index (solver unknown)")
+        k = s.model().eval(term, model_completion=True)
+        if not z3.is_int_value(k):
+            raise Unsupported("symbolic index without an integer model value")
+        if decide(term == k):
+            return k.as_long()
+    raise Unsupported("symbolic value used as a Python index has more than %d feasible values" % limit)
+
+
+CONCRETIZE_LIMIT = 12
+
+
 # ----------------------------------------------------------------------------- scalars
 
 _REAL = z3.RealSort()
@@ -334,9 +362,13 @@ class SNum:
         return self._rbin(o, lambda a, b: a - b)
 
     def __mul__(self, o):
+        if isinstance(o, (list, tuple)) and self.is_int:
+            return o * self.__index__()  # numpy integer scalars defer to sequence repetition
         return self._bin(o, lambda a, b: a * b)
 
     def __rmul__(self, o):
+        if isinstance(o, (list, tuple)) and self.is_int:
+            return o * self.__index__()
         return self._rbin(o, lambda a, b: a * b)
 
     @staticmethod
@@ -469,6 +501,8 @@ class SNum:
         v = z3.simplify(self.t)
         if z3.is_int_value(v):
             return v.as_long()
+        if self.is_int:
+            return concretize(self.t)
         raise Unsupported("symbolic value used as a Python index")
 
     def __round__(self, nd=None):
